@@ -1790,8 +1790,8 @@ def f7(prog, tier="quick"):
                 got = (got[0], got[1] if not isinstance(got[1], Sym) else got[1].q)
                 if got != exp and bad is None:
                     desc = "%s%s whose type is %s%s" % ("an enumerator of " if via_enumerator else "a variable ", "" if not via_enumerator else "an enumeration", (" reached through %d typedef/cv DIEs: " % npeel) if npeel else "",
-                                                          {"base": "a base type with encoding DW_ATE_%s" % what, "pointer": "a pointer type", "enum-enc": "an enumeration with encoding DW_ATE_%s" % what,
-                                                           "enum-typed": "an enumeration whose underlying type has encoding DW_ATE_%s" % what,
+                                                          {"base": "a base type with encoding DW_ATE_%s" % (what,), "pointer": "a pointer type", "enum-enc": "an enumeration with encoding DW_ATE_%s" % (what,),
+                                                           "enum-typed": "an enumeration whose underlying type has encoding DW_ATE_%s" % (what,),
                                                            "enum-forms": "an enumeration without encoding whose enumerators use the forms %s" % (list(what),)}[kind])
                     bad = "DW_AT_const_value (data form) of %s is decoded as %s%s; expected %s%s" % (
                         desc, got[0], (" in the %s domain" % got[1]) if got[1] else "", exp[0], (" in the %s domain" % exp[1]) if exp[1] else "")
